@@ -174,4 +174,65 @@ theorem C01_cell_is_the_last_cryst1 (o : ReadOpts) (ho : o.onlyFirstModel = fals
   rw [hfi, key _ _ rfl]
   simp
 
+/-! ### CRYST1 → space group -/
+
+def symOf (o : ReadOpts) (il : Nat × List Char) : Option Nat :=
+  match lexLine il.2 (il.1 + 1) o.level o.onlyAtomicCoords with
+  | .ok (.crystal _ _ _ _ _ _ sg, _) => symmetryNew (sg.map Char.toNat)
+  | _ => none
+
+theorem stepItem_symmetry (o : ReadOpts) (s : PState) (ctx : Nat × List Char) (item : LexItem) :
+    (stepItem o s ctx item).1.info.symmetry =
+      (match item with | .crystal _ _ _ _ _ _ sg => (symmetryNew (sg.map Char.toNat)).or s.info.symmetry | _ => s.info.symmetry) := by
+  obtain ⟨hfi, _⟩ := flushModel_info s
+  cases item
+  case atom => simp only [stepItem]; (repeat' split) <;> rfl
+  case crystal a b c al be ga sg =>
+    simp only [stepItem]
+    cases hs : symmetryNew (sg.map Char.toNat) <;> simp
+  all_goals first
+    | (simp only [stepItem]; done)
+    | (simp only [stepItem]; (repeat' split) <;> first | rfl | (rw [hfi]; done) | (simp [hfi]; done))
+
+theorem stepLine_symmetry (o : ReadOpts) (s : PState) (il : Nat × List Char) (hs : s.stopped = false) :
+    (stepLine o s (il.1 + 1) il.2).info.symmetry = ((symOf o il).or s.info.symmetry) := by
+  unfold stepLine symOf
+  rw [if_neg (by simp [hs])]
+  cases hl : lexLine il.2 (il.1 + 1) o.level o.onlyAtomicCoords with
+  | error e => simp
+  | ok p =>
+    obtain ⟨item, errs⟩ := p
+    have h3 := stepItem_symmetry o { s with errors := [] } (il.1 + 1, il.2) item
+    show (stepItem o { s with errors := [] } (il.1 + 1, il.2) item).1.info.symmetry = _
+    rw [h3]
+    cases item <;> rfl
+
+/-- **the space group of the structure is the group of the last CRYST1 record whose symbol is a known Hermann-Mauguin
+or Hall symbol** (reading without only-first-model) -/
+theorem C01_symmetry_is_the_last_known_group (o : ReadOpts) (ho : o.onlyFirstModel = false) (lines : List (List Char)) :
+    (readPdbCore o lines).1.info.symmetry = ((List.range lines.length).zip lines).reverse.findSome? (symOf o) := by
+  have key : ∀ (zl : List (Nat × List Char)) (s : PState), s.stopped = false →
+      (zl.foldl (fun s (il : Nat × List Char) => stepLine o s (il.1 + 1) il.2) s).info.symmetry =
+        ((zl.reverse.findSome? (symOf o)).or s.info.symmetry) := by
+    intro zl
+    induction zl with
+    | nil => intro s _; simp
+    | cons x xs ih =>
+      intro s hs
+      have h1 := (stepLine_meta o ho s x hs).1
+      simp only [List.foldl_cons]
+      rw [ih _ h1, stepLine_symmetry o s x hs, List.reverse_cons, List.findSome?_append]
+      cases hx : List.findSome? (symOf o) xs.reverse with
+      | some v => simp
+      | none =>
+        cases hh : symOf o x with
+        | none => simp [hh]
+        | some v => simp [hh]
+  obtain ⟨hfi, _⟩ := flushModel_info (((List.range lines.length).zip lines).foldl
+    (fun s (il : Nat × List Char) => stepLine o s (il.1 + 1) il.2) ({} : PState))
+  unfold readPdbCore
+  simp only
+  rw [hfi, key _ _ rfl]
+  simp
+
 end PdbModel
